@@ -112,7 +112,7 @@ def run_and_validate(chk, behaviours, label, crash=False):
             chk.nontrivial([e["op"], e.get("res"), e.get("t", 0) % 1000 == 0, len(e.get("disk", [])), len(e.get("ids", [])), len(e.get("removed", []))])
     if events:
         chk.sample({"source": label, "first_events": events[:8]})
-    vlib.report_trace_violations(chk, res, events, label=label)
+    vlib.report_trace_violations(chk, res, events, label=label, behaviours=behaviours, harness="chunkstore-crash" if crash else "chunkstore")
     log("[trace] %s: %d behaviours, %d events, %d clause failures" % (label, nb, len(events), len(res.get("viol", []))))
     return res
 
